@@ -825,6 +825,22 @@ func isReadMethodCall(cc *ssa.CallCommon) bool {
 
 // throughParams: look through integer conversions and through parameters of unexported helpers that have a single
 // call site (the value is what that call site passes).
+// tpCtx, when set, names the functions of the unit under analysis (one generated column type's methods and their
+// helpers): a helper with several call sites is then resolved at its call site inside the unit.
+var tpCtx map[*ssa.Function]bool
+
+func withUnitCtx(u *Universe, fns []*ssa.Function, body func()) {
+	old := tpCtx
+	tpCtx = map[*ssa.Function]bool{}
+	for _, f := range fns {
+		for _, g := range unitFns(u, f) {
+			tpCtx[g] = true
+		}
+	}
+	defer func() { tpCtx = old }()
+	body()
+}
+
 func throughParams(v ssa.Value) ssa.Value {
 	for i := 0; i < 6; i++ {
 		v = stripConvert(v)
@@ -837,6 +853,16 @@ func throughParams(v ssa.Value) ssa.Value {
 			return v
 		}
 		cs := callersOf(fn)
+		if len(cs) > 1 && tpCtx != nil {
+			// a helper shared by several column types: the call site in the type under analysis
+			var in []ssa.CallInstruction
+			for _, c := range cs {
+				if tpCtx[c.Parent()] {
+					in = append(in, c)
+				}
+			}
+			cs = in
+		}
 		if len(cs) != 1 || cs[0].Parent() == fn {
 			return v
 		}
@@ -1003,9 +1029,10 @@ func laSizes(c *Ctx, rule string) {
 		}
 		seen := map[ssa.Value]bool{}
 		var appends []*ssa.Call
+		unit := unitFns(u, fn)
 		var walk func(v ssa.Value)
 		walk = func(v ssa.Value) {
-			if seen[v] {
+			if v == nil || seen[v] {
 				return
 			}
 			seen[v] = true
@@ -1019,10 +1046,39 @@ func laSizes(c *Ctx, rule string) {
 					appends = append(appends, x)
 					walk(x.Call.Args[0])
 				}
+			case *ssa.Extract:
+				// a result of a helper of the runtime (`return chunk.result()`): what the helper returns there
+				if call, ok := x.Tuple.(*ssa.Call); ok {
+					if sc := call.Call.StaticCallee(); sc != nil && sc.Blocks != nil && u.pkgPathOf(sc) == rtPath {
+						for _, b := range sc.Blocks {
+							if ret, ok := lastInstr(b).(*ssa.Return); ok && x.Index < len(ret.Results) {
+								walk(ret.Results[x.Index])
+							}
+						}
+					}
+				}
+			case *ssa.UnOp:
+				// a list kept in a field of a local struct: every value stored into that field by the unit
+				if fl := fieldOf(x.X); x.Op == token.MUL && fl != nil {
+					for _, g := range unit {
+						for _, b := range g.Blocks {
+							for _, ins := range b.Instrs {
+								if st, ok := ins.(*ssa.Store); ok && fieldOf(st.Addr) == fl {
+									walk(st.Val)
+								}
+							}
+						}
+					}
+				}
 			}
 		}
 		for _, v := range sizesPhi {
 			walk(v)
+		}
+		defer func(old map[*ssa.Function]bool) { tpCtx = old }(tpCtx)
+		tpCtx = map[*ssa.Function]bool{}
+		for _, g := range unit {
+			tpCtx[g] = true
 		}
 		key := "parquet.(*" + strings.Replace(name, ".", ").", 1) + " per-page counts"
 		if len(appends) == 0 {
@@ -1035,7 +1091,7 @@ func laSizes(c *Ctx, rule string) {
 			vals := appendedValues(ap)
 			var bad []string
 			for _, v := range vals {
-				v = stripConvert(v)
+				v = throughParams(stripConvert(v))
 				if strings.HasPrefix(name, "Required") {
 					if fieldOfLoad(v) != numValues {
 						bad = append(bad, "a page's count is "+symExpr(v, 0)+", want that page header's num_values")
@@ -1283,65 +1339,97 @@ func laFooterMeta(c *Ctx, rule string, which map[string]bool) {
 	}
 	if which["seek"] {
 		rm := u.Func(rtPath, "ReadMetaData")
-		gs := roleFunc(u, rtPath, "metaSize")
 		key := "parquet.ReadMetaData footer position"
-		if rm == nil || gs == nil {
-			r.undecided(rule, key, "", "ReadMetaData / getMetaDataSize not found")
+		if rm == nil {
+			r.undecided(rule, key, "", "ReadMetaData not found")
 			return
 		}
-		// where the tail was read: Seek(k, io.SeekEnd) in getMetaDataSize
+		unit := unitFns(u, rm)
+		isEndSeek := func(ins ssa.Instruction) *ssa.Call {
+			if call, ok := ins.(*ssa.Call); ok && call.Call.IsInvoke() && call.Call.Method.Name() == "Seek" && len(call.Call.Args) == 2 && constIs(call.Call.Args[1], 2) {
+				return call
+			}
+			return nil
+		}
+		// where the tail was read: Seek(k, io.SeekEnd) with a constant k, somewhere in ReadMetaData's unit
 		tailK, found := int64(0), false
-		for _, g := range unitFns(u, gs) {
+		tailFns := map[*ssa.Function]bool{}
+		for _, g := range unit {
 			for _, b := range g.Blocks {
 				for _, ins := range b.Instrs {
-					if call, ok := ins.(*ssa.Call); ok && call.Call.IsInvoke() && call.Call.Method.Name() == "Seek" && constIs(call.Call.Args[1], 2) {
+					if call := isEndSeek(ins); call != nil {
 						if k, ok := call.Call.Args[0].(*ssa.Const); ok && k.Value != nil {
 							tailK, _ = constant.Int64Val(k.Value)
 							found = true
+							tailFns[g] = true
 						}
 					}
 				}
 			}
 		}
 		if !found {
-			r.undecided(rule, key, u.Pos(gs.Pos()), "getMetaDataSize does not seek to a constant offset from the end")
+			r.undecided(rule, key, u.Pos(rm.Pos()), "the tail of the file is not read after a seek to a constant offset from the end")
 			return
 		}
-		// the function that obtains the footer length: ReadMetaData itself or a helper of it
-		var size ssa.Value
-		seekFn := rm
-		for _, g := range unitFns(u, rm) {
+		readsTail := func(f *ssa.Function) bool {
+			for _, g := range unitFns(u, f) {
+				if tailFns[g] {
+					return true
+				}
+			}
+			return false
+		}
+		// the seek to the footer: relative to the end, by -(footer length) + tail offset, where the footer length is a result
+		// of a function that reads the tail
+		okSeek := false
+		var why string
+		for _, g := range unit {
+			var sizes []ssa.Value
 			for _, b := range g.Blocks {
 				for _, ins := range b.Instrs {
-					if call, ok := ins.(*ssa.Call); ok && call.Call.StaticCallee() == gs {
-						size = extractOf(call, 0)
-						seekFn = g
+					if call, ok := ins.(*ssa.Call); ok {
+						if sc := call.Call.StaticCallee(); sc != nil && sc.Blocks != nil && u.pkgPathOf(sc) == rtPath && readsTail(sc) {
+							if ex := extractOf(call, 0); ex != nil {
+								sizes = append(sizes, ex)
+							} else {
+								sizes = append(sizes, call)
+							}
+						}
+					}
+				}
+			}
+			for _, b := range g.Blocks {
+				for _, ins := range b.Instrs {
+					call, ok := ins.(*ssa.Call)
+					if !ok || !call.Call.IsInvoke() || call.Call.Method.Name() != "Seek" || len(call.Call.Args) != 2 {
+						continue
+					}
+					if _, isK := call.Call.Args[0].(*ssa.Const); isK {
+						continue // the tail seek itself
+					}
+					if len(sizes) == 0 {
+						continue
+					}
+					if !constIs(call.Call.Args[1], 2) {
+						why = "the footer is not located relative to the end of the file"
+						continue
+					}
+					matched := false
+					for _, size := range sizes {
+						// arg = -(size) + tailK as a linear form in size
+						if a, k, okL := linIn(call.Call.Args[0], size, 0); okL && a == -1 && k == tailK {
+							matched = true
+						}
+					}
+					if matched {
+						okSeek = true
+					} else {
+						why = fmt.Sprintf("the footer is sought at %s from the end, want -(footer length) %+d (the footer ends where the %d-byte tail begins)", symExpr(call.Call.Args[0], 0), tailK, -tailK)
 					}
 				}
 			}
 		}
-		okSeek := false
-		var why string
-		for _, b := range seekFn.Blocks {
-			for _, ins := range b.Instrs {
-				call, ok := ins.(*ssa.Call)
-				if !ok || !call.Call.IsInvoke() || call.Call.Method.Name() != "Seek" {
-					continue
-				}
-				if !constIs(call.Call.Args[1], 2) {
-					why = "the footer is not located relative to the end of the file"
-					continue
-				}
-				// arg = -(size) + tailK as a linear form in size
-				a, k, okL := linIn(call.Call.Args[0], size, 0)
-				if okL && a == -1 && k == tailK {
-					okSeek = true
-				} else {
-					why = fmt.Sprintf("the footer is sought at %s from the end, want -(footer length) %+d (the footer ends where the %d-byte tail begins)", symExpr(call.Call.Args[0], 0), tailK, -tailK)
-				}
-			}
-		}
-		if okSeek {
+		if okSeek && why == "" {
 			r.ok(rule, key, u.Pos(rm.Pos()), fmt.Sprintf("Seek(-(size) %+d, SeekEnd)", tailK))
 		} else {
 			if why == "" {
